@@ -176,6 +176,9 @@ def mk_app(fn, args=(), kw=()):
             return Const(Fraction(1, 2))
     if fn == "reshape" and len(args) == 2 and not kw:
         x, shp = args
+        if isinstance(x, Sym) and "rank0" in x.tags and isinstance(shp, Tup) and shp.items and all(i == Const(1) for i in shp.items):
+            # a 0-d array reshaped to (1, ..., 1) is the array with that many unit axes inserted: t.reshape(1, 1) = t[None, None]
+            return mk_app("getitem", [x, Tup([Const(None)] * len(shp.items)) if len(shp.items) > 1 else Const(None)])
         # reshape(reshape(X, -1), shape(X)) = X ; reshape(reshape(X, -1), -1) = reshape(X, -1)
         if isinstance(x, App) and x.fn == "reshape" and len(x.args) == 2 and x.args[1] == Const(-1):
             if shp == App("shape", (x.args[0],)):
